@@ -484,7 +484,10 @@ class World:
                 IDs = tuple(UNIVERSAL[c - 1] for c in a['ids'])
                 if len(IDs) == 1 and a.get('as_str'):
                     IDs = IDs[0]
-            S[a['x']].copy_flow(S[a['y']], IDs, remove=a['remove'], exclude=a['excl'])
+            if isinstance(S[a['x']], tmo.MultiStream):
+                S[a['x']].copy_flow(S[a['y']], ..., IDs, remove=a['remove'], exclude=a['excl'])       # (other, phase, IDs)
+            else:
+                S[a['x']].copy_flow(S[a['y']], IDs, remove=a['remove'], exclude=a['excl'])
         elif op == 'scale':
             S[a['x']].scale(a['q'][0] / a['q'][1])
         elif op == 'empty':
